@@ -13,6 +13,7 @@ import (
 	"github.com/NethermindEth/juno/core"
 	"github.com/NethermindEth/juno/core/crypto"
 	"github.com/NethermindEth/juno/core/felt"
+	"github.com/NethermindEth/juno/core/trie"
 	"github.com/NethermindEth/juno/jsonrpc"
 	rpcv10 "github.com/NethermindEth/juno/rpc/v10"
 	rpcv9 "github.com/NethermindEth/juno/rpc/v9"
@@ -161,6 +162,7 @@ type rpcRequest struct {
 	Classes   []string             `json:"class_hashes"`
 	Contracts []string             `json:"contract_addresses"`
 	Storage   []rpcStorageKeysJSON `json:"contracts_storage_keys"`
+	BlockID   blockRef             `json:"block_id"`
 	Chain     rpcChain             `json:"chain"`
 }
 
@@ -177,46 +179,119 @@ func feltsHex(fs []felt.Felt) []string {
 	return out
 }
 
+// blockRef is the block_id of a request.
+type blockRef struct {
+	Kind   string `json:"kind"` // latest | number | hash | pre_confirmed | l1_accepted
+	Number uint64 `json:"number,omitempty"`
+	Hash   string `json:"hash,omitempty"`
+}
+
+// asSets: the node mappings of the typed result converted with the RPC types' own AsProofNode
+// (the conversion clients of the Go API use to feed trie.VerifyProof).
+type asSets struct {
+	classes, contracts *trie.ProofNodeSet
+	storage            []*trie.ProofNodeSet
+}
+
 // callStorageProof invokes the real handler and returns the JSON a client would receive.
-func callStorageProof(version string, h9 *rpcv9.Handler, h10 *rpcv10.Handler, classes, contracts []felt.Felt,
+func callStorageProof(version string, h9 *rpcv9.Handler, h10 *rpcv10.Handler, ref blockRef, classes, contracts []felt.Felt,
 	storage []rpcStorageKeysJSON,
-) ([]byte, *jsonrpc.Error, error) {
+) ([]byte, *asSets, *jsonrpc.Error, error) {
 	var res any
 	var rpcErr *jsonrpc.Error
+	sets := &asSets{classes: trie.NewProofNodeSet(), contracts: trie.NewProofNodeSet()}
 	err, _, _ := lib.Try(func() error {
 		if version == "v9" {
 			id := rpcv9.BlockIDLatest()
+			switch ref.Kind {
+			case "number":
+				id = rpcv9.BlockIDFromNumber(ref.Number)
+			case "hash":
+				hh := hexFelt(ref.Hash)
+				id = rpcv9.BlockIDFromHash(&hh)
+			case "pre_confirmed":
+				id = rpcv9.BlockIDPreConfirmed()
+			case "l1_accepted":
+				id = rpcv9.BlockIDL1Accepted()
+			}
 			sk := make([]rpcv9.StorageKeys, len(storage))
 			for i, s := range storage {
-				c := hexFelt(strings.TrimPrefix(s.Contract, "0x"))
-				sk[i] = rpcv9.StorageKeys{Contract: &c}
+				if s.Contract != "" {
+					c := hexFelt(strings.TrimPrefix(s.Contract, "0x"))
+					sk[i] = rpcv9.StorageKeys{Contract: &c}
+				}
 				for _, k := range s.Keys {
 					sk[i].Keys = append(sk[i].Keys, hexFelt(strings.TrimPrefix(k, "0x")))
 				}
 			}
-			res, rpcErr = h9.StorageProof(&id, classes, contracts, sk)
+			r9, e := h9.StorageProof(&id, classes, contracts, sk)
+			res, rpcErr = r9, e
+			if e == nil && r9 != nil {
+				for _, n := range r9.ClassesProof {
+					sets.classes.Put(*n.Hash, n.Node.AsProofNode())
+				}
+				for _, n := range r9.ContractsProof.Nodes {
+					sets.contracts.Put(*n.Hash, n.Node.AsProofNode())
+				}
+				for _, m := range r9.ContractsStorageProofs {
+					ps := trie.NewProofNodeSet()
+					for _, n := range m {
+						ps.Put(*n.Hash, n.Node.AsProofNode())
+					}
+					sets.storage = append(sets.storage, ps)
+				}
+			}
 		} else {
 			id := rpcv10.BlockIDLatest()
+			switch ref.Kind {
+			case "number":
+				id = rpcv10.BlockIDFromNumber(ref.Number)
+			case "hash":
+				hh := hexFelt(ref.Hash)
+				id = rpcv10.BlockIDFromHash(&hh)
+			case "pre_confirmed":
+				id = rpcv10.BlockIDPreConfirmed()
+			case "l1_accepted":
+				id = rpcv10.BlockIDL1Accepted()
+			}
 			sk := make([]rpcv10.StorageKeys, len(storage))
 			for i, s := range storage {
-				c := hexFelt(strings.TrimPrefix(s.Contract, "0x"))
-				sk[i] = rpcv10.StorageKeys{Contract: &c}
+				if s.Contract != "" {
+					c := hexFelt(strings.TrimPrefix(s.Contract, "0x"))
+					sk[i] = rpcv10.StorageKeys{Contract: &c}
+				}
 				for _, k := range s.Keys {
 					sk[i].Keys = append(sk[i].Keys, hexFelt(strings.TrimPrefix(k, "0x")))
 				}
 			}
-			res, rpcErr = h10.StorageProof(&id, classes, contracts, sk)
+			r10, e := h10.StorageProof(&id, classes, contracts, sk)
+			res, rpcErr = r10, e
+			if e == nil && r10 != nil {
+				for _, n := range r10.ClassesProof {
+					sets.classes.Put(*n.Hash, n.Node.AsProofNode())
+				}
+				for _, n := range r10.ContractsProof.Nodes {
+					sets.contracts.Put(*n.Hash, n.Node.AsProofNode())
+				}
+				for _, m := range r10.ContractsStorageProofs {
+					ps := trie.NewProofNodeSet()
+					for _, n := range m {
+						ps.Put(*n.Hash, n.Node.AsProofNode())
+					}
+					sets.storage = append(sets.storage, ps)
+				}
+			}
 		}
 		return nil
 	})
 	if err != nil {
-		return nil, nil, err
+		return nil, nil, nil, err
 	}
 	if rpcErr != nil {
-		return nil, rpcErr, nil
+		return nil, nil, rpcErr, nil
 	}
 	b, err := json.Marshal(res)
-	return b, nil, err
+	return b, sets, nil, err
 }
 
 // rpcChain identifies one generated chain and destination node (enough to rebuild it for a replay).
@@ -347,7 +422,54 @@ func (c *ctx) rpcQuery(r *lib.RNG, g *lib.ChainGen, version string, chain rpcCha
 	res.Hit(fmt.Sprintf("rpc:%s:backend-new=%v", version, newState))
 	res.Hit("rpc:protocol-" + head.Block.ProtocolVersion)
 
-	raw, rpcErr, err := callStorageProof(version, h9, h10, classes, contracts, storage)
+	// --- the block id: the head by tag / number / hash must be served; every other block must be refused
+	// (the proofs are always those of the head state: served for another block they could not verify
+	// against that block's root)
+	ref := blockRef{Kind: "latest"}
+	if head.Block.Number > 0 {
+		switch r.Intn(12) {
+		case 0, 1:
+			ref = blockRef{Kind: "number", Number: head.Block.Number}
+		case 2, 3:
+			ref = blockRef{Kind: "hash", Hash: fhex(head.Block.Hash)}
+		case 4:
+			ref = blockRef{Kind: "number", Number: head.Block.Number - 1}
+		case 5:
+			ref = blockRef{Kind: "hash", Hash: fhex(g.Bundles[r.Intn(int(head.Block.Number))].Block.Hash)}
+		case 6:
+			ref = blockRef{Kind: "number", Number: head.Block.Number + 1 + uint64(r.Intn(3))}
+		case 7:
+			ref = lib.Pick(r, []blockRef{{Kind: "pre_confirmed"}, {Kind: "l1_accepted"}, {Kind: "hash", Hash: randFeltHex(r)}})
+		}
+	}
+	req.BlockID = ref
+	isHead := ref.Kind == "latest" || (ref.Kind == "number" && ref.Number == head.Block.Number) ||
+		(ref.Kind == "hash" && ref.Hash == fhex(head.Block.Hash))
+	res.Hit("rpc:block-id:" + ref.Kind + fmt.Sprintf(":head=%v", isHead))
+	// malformed storage key lists must be refused, not answered
+	if r.Chance(1, 10) {
+		bad := append([]rpcStorageKeysJSON{}, storage...)
+		if r.Bool() {
+			bad = append(bad, rpcStorageKeysJSON{Contract: "", Keys: []string{"0x1"}})
+		} else {
+			bad = append(bad, rpcStorageKeysJSON{Contract: "0x1", Keys: nil})
+		}
+		if rawBad, _, e1, e2 := callStorageProof(version, h9, h10, ref, classes, contracts, bad); e1 == nil && e2 == nil && rawBad != nil {
+			res.Violate(lib.Violation{Sig: tag + ":malformed-storage-keys-answered", What: "a contracts_storage_keys entry without contract_address / without storage_keys is answered with a proof instead of InvalidParams", Replay: req})
+		}
+		res.Hit("rpc:malformed-storage-keys")
+	}
+	raw, sets, rpcErr, err := callStorageProof(version, h9, h10, ref, classes, contracts, storage)
+	if !isHead {
+		if err == nil && rpcErr == nil {
+			res.Violate(lib.Violation{Sig: tag + ":proof-served-for-a-block-that-is-not-the-head",
+				What:   fmt.Sprintf("block_id %+v is not the head (%d) and a proof (of the head state) is returned for it", ref, head.Block.Number),
+				Replay: req})
+		} else if err != nil {
+			res.Violate(lib.Violation{Sig: tag + ":request-fails", What: fmt.Sprintf("starknet_getStorageProof panics: %v", err), Replay: req})
+		}
+		return
+	}
 	if err != nil || rpcErr != nil {
 		res.Violate(lib.Violation{Sig: tag + ":request-fails", What: fmt.Sprintf("starknet_getStorageProof fails: %v %v", err, rpcErr), Replay: req})
 		return
@@ -393,6 +515,18 @@ func (c *ctx) rpcQuery(r *lib.RNG, g *lib.ChainGen, version string, chain rpcCha
 		// finding reported by the trie section, not repeated here
 		impl := realVerify("legacy", hf, root, kb, p)
 		b.checks = append(b.checks, check{line: c.modelLine("legacy", rootHex, kb, p, hash), impl: impl, sig: sig, replay: mk})
+		// the same mapping converted by the RPC node types' own AsProofNode, through the real verifier
+		if as, ok := extra.(*trie.ProofNodeSet); ok && as != nil {
+			var got felt.Felt
+			var verr error
+			perr, panicked, _ := lib.Try(func() error { got, verr = trie.VerifyProof(root, key, as, hf); return nil })
+			if panicked || verr != nil || !got.Equal(want) {
+				res.Violate(lib.Violation{Sig: sig + ":as-proof-node-conversion-does-not-verify",
+					What:   fmt.Sprintf("nodes converted with AsProofNode: trie.VerifyProof gives %s / %v / %v, expected %s", got.String(), verr, perr, want.String()),
+					Replay: mk()})
+			}
+			res.Hit("rpc:as-proof-node:" + kind)
+		}
 		if want.IsZero() {
 			res.Hit("rpc:" + kind + ":absent")
 		} else {
@@ -405,7 +539,7 @@ func (c *ctx) rpcQuery(r *lib.RNG, g *lib.ChainGen, version string, chain rpcCha
 	} else {
 		for i := range classes {
 			want := absClassLeaf(st, classes[i])
-			verify("class-proof", "pos", &classesRoot, &classes[i], p, &want, nil)
+			verify("class-proof", "pos", &classesRoot, &classes[i], p, &want, sets.classes)
 		}
 	}
 	// --- contracts
@@ -433,7 +567,7 @@ func (c *ctx) rpcQuery(r *lib.RNG, g *lib.ChainGen, version string, chain rpcCha
 		for i := range ucontracts {
 			a := ucontracts[i]
 			want := absContractLeaf(st, a)
-			verify("contract-proof", "ped", &contractsRoot, &a, p, &want, nil)
+			verify("contract-proof", "ped", &contractsRoot, &a, p, &want, sets.contracts)
 			if i >= len(resp.ContractsProof.LeavesData) {
 				continue
 			}
@@ -550,7 +684,11 @@ func (c *ctx) rpcQuery(r *lib.RNG, g *lib.ChainGen, version string, chain rpcCha
 			if ac != nil {
 				want = ac.Storage[key]
 			}
-			verify("storage-proof", "ped", &root, &key, proofs[assign[i]], &want, nil)
+			var as *trie.ProofNodeSet
+			if assign[i] < len(sets.storage) {
+				as = sets.storage[assign[i]]
+			}
+			verify("storage-proof", "ped", &root, &key, proofs[assign[i]], &want, as)
 		}
 	}
 	out <- b
